@@ -9,7 +9,11 @@
 package vsched
 
 import (
+	"bufio"
 	"fmt"
+	"io"
+	"os"
+	"strings"
 	"sync"
 	"sync/atomic"
 )
@@ -47,7 +51,57 @@ type Sched struct {
 	Livelock bool
 	Aborted  string
 	exited   int32
+	// remote != nil: this process is a CHILD whose single thread of interest is scheduled by a
+	// scheduler living in the parent process; every scheduling point is reported over a pipe and
+	// the thread continues when the parent says so (see AttachRemote).
+	remote *remote
 }
+
+type remote struct {
+	in  *bufio.Reader
+	out io.Writer
+}
+
+// AttachRemote makes every scheduling point of this process a request to a scheduler in another
+// process: "Y <label>" / "B <key>\t<label>" are written to out and the caller waits for a line on
+// in; "U <key>" is written without waiting. DetachRemote ends it.
+func AttachRemote(in *bufio.Reader, out io.Writer) {
+	s := &Sched{remote: &remote{in: in, out: out}}
+	if !cur.CompareAndSwap(nil, s) {
+		panic("vsched: a scheduler is already attached")
+	}
+}
+
+func DetachRemote() { cur.Store(nil) }
+
+// keyString names a blocking key across processes: a string key (the path of a lock file) means
+// the same thing in every process, anything else (a mutex address) belongs to this process.
+func keyString(k interface{}) string {
+	if str, ok := k.(string); ok {
+		return clean(str)
+	}
+	return fmt.Sprintf("pid%d:%p", os.Getpid(), k)
+}
+
+func clean(x string) string {
+	return strings.NewReplacer("\n", " ", "\t", " ").Replace(x)
+}
+
+func (r *remote) ask(line string) {
+	if _, err := io.WriteString(r.out, line+"\n"); err != nil {
+		panic("vsched: the parent scheduler is gone: " + err.Error())
+	}
+	ans, err := r.in.ReadString('\n')
+	if err != nil {
+		panic("vsched: the parent scheduler is gone: " + err.Error())
+	}
+	if strings.HasPrefix(ans, "X") { // the execution was aborted in the parent
+		panic(abortSentinel{"aborted by the parent scheduler"})
+	}
+}
+
+// IsAbort tells whether a recovered panic value is the scheduler's own unwinding signal.
+func IsAbort(v interface{}) bool { _, ok := v.(abortSentinel); return ok }
 
 var cur atomic.Pointer[Sched]
 
@@ -188,6 +242,14 @@ func Yield(label string) {
 }
 
 func (s *Sched) yield(label string, blockOn interface{}) {
+	if s.remote != nil {
+		if blockOn != nil {
+			s.remote.ask("B " + keyString(blockOn) + "\t" + clean(label))
+		} else {
+			s.remote.ask("Y " + clean(label))
+		}
+		return
+	}
 	s.mu.Lock()
 	if atomic.LoadInt32(&s.exited) == 1 {
 		s.mu.Unlock()
@@ -233,6 +295,12 @@ func (s *Sched) Block(key interface{}, label string) { s.yield("block:"+label, k
 
 // Unblock makes every thread parked on key runnable again (it does not switch).
 func (s *Sched) Unblock(key interface{}) {
+	if s.remote != nil {
+		if _, err := io.WriteString(s.remote.out, "U "+keyString(key)+"\n"); err != nil {
+			panic("vsched: the parent scheduler is gone: " + err.Error())
+		}
+		return
+	}
 	s.mu.Lock()
 	for _, t := range s.threads {
 		if t.blocked == key {
@@ -244,6 +312,9 @@ func (s *Sched) Unblock(key interface{}) {
 
 // RunningName returns the name of the running logical thread ("" if none).
 func (s *Sched) RunningName() string {
+	if s.remote != nil {
+		return "remote"
+	}
 	s.mu.Lock()
 	defer s.mu.Unlock()
 	if s.running == nil {
